@@ -171,8 +171,8 @@ theorem trialsOK_append {ts ts' : List Trial} (h : TrialsOK ts ts') (hsame : ts'
       rw [this] at hnone; cases hnone
     · exact hnew_gt t' ht'
 
-theorem createTrialBody_ok (st : Study) (t : Trial) (hn : Nodup' st.trials) :
-    TrialsOK st.trials (createTrialBody st t).2.trials := by
+theorem createTrialBody_ok (keepInf : Bool) (st : Study) (t : Trial) (hn : Nodup' st.trials) :
+    TrialsOK st.trials (createTrialBody keepInf st t).2.trials := by
   unfold createTrialBody Study.addTrial
   apply trialsOK_append (TrialsOK.refl hn) rfl
   simp [maxTrialId_eq, List.range']
